@@ -124,6 +124,10 @@ CASE_PARTS = ('atkeyword', 'atkeyword-nested', 'atkeyword-margin', 'atkeyword-un
 #   ident (identifier values), selname (type/class/id/attribute names and identifier attribute values, namespace prefixes, page names),
 #   media (only/not/and, media types, media features)
 ESCAPE_PARTS = CASE_PARTS[:-1] + ('ident', 'selname', 'media')
+# further case-insensitive parts that are NOT in the default case_parts of a Spelling (callers that want them name them in case_parts, alone or as
+# CASE_PARTS + CASE_PARTS_OPTIONAL; the default spellings and gen.spellings() are unchanged by them):
+#   media-keyword (the media query keywords only / not / and - ASCII case-insensitive like every CSS keyword; media types and feature names are not varied)
+CASE_PARTS_OPTIONAL = ('media-keyword',)
 # positions inside a construct where the grammar admits white space and therefore a comment
 COMMENT_PARTS = ('selector', 'pseudo-arg', 'attr', 'decl', 'value', 'before-operator', 'function', 'calc', 'prelude', 'media')
 
@@ -647,13 +651,13 @@ def _media(media, cx):
             p += [O(M), ',', O(M)]
         first = True
         if qual:
-            p += [cx.esc(qual, 'media'), R(M)]
+            p += [cx.esc(cx.case(qual, 'media-keyword'), 'media'), R(M)]
         if typ:
             p += [cx.esc(typ, 'media')]
             first = False
         for fname, fval in feats:
             if not first:
-                p += [R(M), cx.esc('and', 'media'), R(M)]
+                p += [R(M), cx.esc(cx.case('and', 'media-keyword'), 'media'), R(M)]
             first = False
             p += ['(', O(M), cx.esc(fname, 'media')]
             if fval is not None:
